@@ -3,6 +3,7 @@
     [enum r] is start, start+step, ... up to the last value not past end
     (Spec/SpecRanges.v); [wf r]: non-zero step whose sign agrees with the
     direction.  No bound on magnitudes. *)
+From GFS Require Import IntLoop GenAuLoop IntLoopProofs.
 From GFS Require Import Base Dec Ranges FrameSet SpecRanges SpecRange RangeBasics AppendProofs StringProofs.
 Local Open Scope Z_scope.
 
@@ -105,3 +106,36 @@ Example wf_example : wf (new_range 10 1 (-3)) /\ enum (new_range 10 1 (-3)) = [1
 Proof. split; [right; left; cbn; lia | reflexivity]. Qed.
 Example WF_example : WF (append_unique (append_unique [] 1 10 2) 10 1 (-3)).
 Proof. apply append_unique_spec; [apply append_unique_spec; [apply WF_nil | lia] | lia]. Qed.
+
+(** ** The loop of AppendUnique on machine integers (D20)
+
+    [append_unique] above runs its loop body a number of times computed in closed form.  The Go
+    loop decides trip by trip, on 64-bit integers that wrap around.  gfsgen reads the loop
+    control of the current ranges.go ([au_loop_ctl], Gen/GenAuLoop.v); on every 64-bit start, end
+    and step (step not the smallest int, span fitting an int) that control ends after exactly
+    [au_count] trips, and the body has seen exactly the values the range enumerates, none of
+    them wrapped: the closed-form count of the model is the count of the code. *)
+Theorem append_unique_loop_ends_and_visits_the_enumeration_on_int64 : forall start end_ step,
+  au_domain start end_ step ->
+  loop_visits au_loop_ctl (au_count start end_ (au_step start end_ step)) start end_ step =
+  Some (enum (mkR start end_ (au_step start end_ step))).
+Proof. exact generated_loop_control_visits_enum. Qed.
+Print Assumptions append_unique_loop_ends_and_visits_the_enumeration_on_int64.
+
+(** The loop control before the D20 repair (step, then test whether the value is past the end)
+    never ends when the range ends on the largest int, or descends to the smallest: whatever the
+    fuel, the loop is still running.  [NewFrameSet("1,9223372036854775807")] is the witness on
+    the code. *)
+Theorem the_earlier_loop_control_never_ends_at_the_int_edges : forall fuel start step,
+  is_int64 start ->
+  loop_visits CtlTestPast fuel start int_max step = None /\
+  (int_min < start -> loop_visits CtlTestPast fuel start int_min step = None).
+Proof. exact test_past_never_ends_at_the_int_edges. Qed.
+Print Assumptions the_earlier_loop_control_never_ends_at_the_int_edges.
+
+Example loop_at_the_top_of_the_int_range_example :
+  au_domain (int_max - 4) int_max 1 /\
+  loop_visits au_loop_ctl 5 (int_max - 4) int_max 1 =
+  Some [int_max - 4; int_max - 3; int_max - 2; int_max - 1; int_max] /\
+  loop_visits CtlTestPast 1000 (int_max - 4) int_max 1 = None.
+Proof. exact loop_at_the_top_of_the_int_range. Qed.
